@@ -208,10 +208,13 @@ type Sim struct {
 
 	initConf refmodel.Conf
 
+	// ActionsRun counts the random actions executed so far.
+	ActionsRun int
+
 	propSeq    int
 	readSeq    int
 	deliveries int
-	curCause *Cause
+	curCause   *Cause
 }
 
 // Cause describes why a RawNode is being called (for monitors).
